@@ -238,6 +238,10 @@ func (tp *TP) dischargePoller(ctx context.Context, pollSecret, userSecret string
 	if err != nil {
 		return err
 	}
+	if sd == nil {
+		// a Store may report a miss as (nil, nil): the HTTP handlers allow for it
+		return errNotFound
+	}
 
 	fd, err := tp.newFD(nil, "background", sd.Ticket)
 	if err != nil {
@@ -289,6 +293,10 @@ func (tp *TP) abortPoller(ctx context.Context, pollSecret, userSecret string, me
 	}
 	if err != nil {
 		return err
+	}
+	if sd == nil {
+		// a Store may report a miss as (nil, nil): the HTTP handlers allow for it
+		return errNotFound
 	}
 
 	jresp, err := json.Marshal(&jsonResponse{Error: message})
